@@ -160,7 +160,8 @@ func init() {
 			}
 			for i := 0; i < pick(r, 0, 1, 3); i++ {
 				s.Submit("u", reqCreateSchedule(fmt.Sprintf("s%d", i), pick(r, "* * * * * *", "*/5 * * * * *", "* * * * *", "@every 2s", "0 0 1 1 *"), pick(r, "{{.id}}.{{.timestamp}}", "fix"+fmt.Sprint(i)), pick(r, int64(0), 1000), nil,
-					pick(r, map[string]string(nil), map[string]string{"resonate:invoke": "poll://default/w"}), ""))
+					// routing tags of every shape: a value that is JSON but not a receiver object does not route, and does not stop the schedule either
+					pick(r, map[string]string(nil), map[string]string{"resonate:invoke": "poll://default/w"}, map[string]string{"resonate:invoke": pick(r, `{"url":"http://h/x"}`, `42`, `"quoted"`, `[1,2]`, `{"type":""}`, `true`)}), ""))
 			}
 			s.Tick(s.now + 1)
 			s.Drain(1, 3000)
